@@ -274,6 +274,11 @@ func (ps *sparser) typeText() string {
 			}
 			continue
 		}
+		if pk := ps.peek(); pk.kind == "id" && pk.s == "chan" {
+			ps.next()
+			sb.WriteString("chan ")
+			continue
+		}
 		break
 	}
 	n := ps.next()
